@@ -56,7 +56,8 @@ const L2Rule = " || L2: scenario k of seed s (one child process each) is a pure 
 	"outpoint in one block) and 2-5 growth blocks (more first/second spends) revealed later; 1-3 honest wire-level peers; the complete real " +
 	"ChainService synced to the chain; then w.Svc.GetUtxo(WatchInputs, StartBlock) is called concurrently in waves for outpoints spent later / " +
 	"never spent / spent only in the tail or in a growth block / spent twice / created and spent in one block / foreign / out-of-range index / " +
-	"sibling outputs, duplicates with equal and different start heights, with start heights 0, below, at and above creation, at and after the " +
+	"sibling outputs / sweep-set (the outpoints ONE hand-built block spends first in different transactions, asked about together with 0-2 duplicate calls each, " +
+	"at least one duplicate for an outpoint not spent last; in l2-stall-join all of them join the one stalled batch), duplicates with equal and different start heights, with start heights 0, below, at and above creation, at and after the " +
 	"spend, at the tip, above the tip. Families: l2-static, l2-growth (blocks revealed while the scans run), l2-stall-join (a dropped getdata " +
 	"stalls the running batch; the chain grows and is adopted, then a second wave joins the running batch), l2-withheld (every peer refuses one " +
 	"block: the scan cannot complete; afterwards the carrier request is retried), l2-stop (Stop while a batch is stalled), l2-mixed (growth + one peer dropping + duplicates), " +
@@ -398,6 +399,7 @@ type l2Plan struct {
 	Slow     bool
 	Announce string
 	Fixed    bool
+	SweepSet string // what addSweepSet planned ("" = the chain had no suitable block)
 
 	w     *l2.World
 	rng   *rand.Rand
@@ -647,7 +649,100 @@ func l2MakePlan(seed int64, k int) *l2Plan {
 			pl.newReq(2, carrier, n.Block.Transactions[0].TxOut[0].PkScript, int64(pl.stallHeight), "carrier", "retry-same")
 		}
 	}
+	pl.addSweepSet(seed, k)
 	return pl
+}
+
+// addSweepSet mirrors the component part's sweep family: the outpoints that
+// ONE hand-built block spends first, in different transactions, are asked
+// about together, with 0-2 duplicate calls each (at least one duplicate for
+// an outpoint that is not the last one spent). In l2-stall-join they are part
+// of the second wave with start heights above the stalled block, so all of
+// them join the one running batch; in the static / growth / mixed families
+// they are issued with the first wave (same batch only if the calls arrive
+// close enough). It draws from its own rng, so the rest of the plan is what
+// it was without it.
+func (pl *l2Plan) addSweepSet(seed int64, k int) {
+	wave, low, top := 0, int32(0), pl.c.tip0.Height
+	switch pl.Family {
+	case L2Static, L2Growth, L2Mixed:
+	case L2StallJoin:
+		wave, low, top = 1, pl.stallHeight, int32(len(pl.c.path)-1)
+	default:
+		return
+	}
+	c := pl.c
+	rng := rand.New(rand.NewSource(seed*1_000_003 + int64(k)*7919 + 5050))
+	type member struct {
+		op wire.OutPoint
+		tx int
+	}
+	var groups [][]member
+	var heights []int32
+	for h := int32(pl.TrunkLen) + 1; h <= top; h++ {
+		var ms []member
+		seen := map[wire.OutPoint]bool{}
+		txs := map[int]bool{}
+		for ti, tx := range c.blocks[h].Transactions {
+			if ti == 0 {
+				continue
+			}
+			for _, in := range tx.TxIn {
+				op := in.PreviousOutPoint
+				cl, ok := c.created[op.Hash]
+				if !ok || seen[op] || cl.Height <= low || len(c.spent[op]) == 0 || c.spent[op][0] != h {
+					continue
+				}
+				seen[op] = true
+				txs[ti] = true
+				ms = append(ms, member{op, ti})
+			}
+		}
+		if len(ms) >= 2 && len(txs) >= 2 {
+			groups = append(groups, ms)
+			heights = append(heights, h)
+		}
+	}
+	if len(groups) == 0 {
+		return
+	}
+	gi := rng.Intn(len(groups))
+	ms, h := groups[gi], heights[gi]
+	saved := pl.rng
+	pl.rng = rng
+	defer func() { pl.rng = saved }()
+	dups := make([]int, len(ms))
+	nonLast := 0
+	for i := range ms {
+		dups[i] = rng.Intn(3)
+		if ms[i].tx < ms[len(ms)-1].tx {
+			nonLast += dups[i]
+		}
+	}
+	if nonLast == 0 {
+		dups[0] = 1 + rng.Intn(2)
+	}
+	startOf := func(op wire.OutPoint) int64 {
+		cr := int64(c.created[op.Hash].Height)
+		switch rng.Intn(4) {
+		case 0:
+			return int64(h)
+		case 1:
+			return cr + 1 + int64(rng.Intn(int(int64(h)-cr)))
+		}
+		return cr
+	}
+	for i, m := range ms {
+		first := pl.newReq(wave, m.op, c.scriptOf(m.op), startOf(m.op), "sweep-set", "none")
+		for d := 0; d < dups[i]; d++ {
+			if rng.Intn(2) == 0 {
+				pl.newReq(wave, m.op, first.Script, int64(first.Start), "sweep-set", "same-start")
+			} else {
+				pl.newReq(wave, m.op, first.Script, startOf(m.op), "sweep-set", "other-start")
+			}
+		}
+	}
+	pl.SweepSet = fmt.Sprintf("block %d spends %d watched outpoints, duplicates %v", h, len(ms), dups)
 }
 
 // ---------------------------------------------------------------------------
@@ -1275,6 +1370,9 @@ func L2Scenario(seed int64, k int, res *l2.Result) {
 	res.Fingerprint = fmt.Sprintf("%s|peers=%d|fault=%s|grown=%d|waves=%d|answers=%s", pl.Family, pl.Peers, fault, x.revealed, len(pl.waves), strings.Join(aks, ","))
 	res.Nontrivial = answered > 0 && x.served.Load() > 0
 	res.Count("l2_scenarios", 1)
+	if pl.SweepSet != "" {
+		res.Count("l2_scenarios_with_sweep_set", 1)
+	}
 	res.Count("l2_growth_blocks_revealed", int64(x.revealed))
 	res.Count("l2_getdata_dropped", int64(nBlk))
 	res.Count("l2_cfilter_batches_dropped", int64(nCF))
@@ -1293,8 +1391,8 @@ func L2Scenario(seed int64, k int, res *l2.Result) {
 		tr := append([]string(nil), x.trace...)
 		x.tmu.Unlock()
 		return l2Witness{Scenario: k, Seed: seed, Trace: tr, Requests: rs, Net: w.Log.Tail(80),
-			Setup: fmt.Sprintf("family=%s trunk=%d tail..%d growth=%d peers=%d slow=%v announce=%s stall-height=%d drops=%dx(all=%v)",
-				pl.Family, pl.TrunkLen, c.tip0.Height, len(c.growth), pl.Peers, pl.Slow, pl.Announce, pl.stallHeight, pl.dropTimes, pl.dropAll)}
+			Setup: fmt.Sprintf("family=%s trunk=%d tail..%d growth=%d peers=%d slow=%v announce=%s stall-height=%d drops=%dx(all=%v) sweep-set=[%s]",
+				pl.Family, pl.TrunkLen, c.tip0.Height, len(c.growth), pl.Peers, pl.Slow, pl.Announce, pl.stallHeight, pl.dropTimes, pl.dropAll, pl.SweepSet)}
 	}
 	seen := map[string]bool{}
 	for _, v := range viols {
